@@ -131,7 +131,8 @@ def set_cmd(p, state, raw):
 def build_world(w, inp):
     reset_world(w)
     kind = inp["kind"]
-    comm = bytes(inp["comm"]) if kind == "name" else b"proc"
+    # (a name that imitates the tail of a stat record: "...) S (" for zombies, "...) Z (" for the living)
+    comm = bytes(inp["comm"]) if kind == "name" else (b"j) S (x" if json.dumps(inp, sort_keys=True).count("1") % 2 else b"a) Z (b")
     p = w.spawn(PID, comm=comm, state="S", ppid=4, start=2200)
     p.exe, p.cwd = "/bin/other", "/other"
     p.cmdline, p.environ = b"", b""
@@ -621,7 +622,7 @@ def trace_validate(ctx, n):
 def need(what, required, seen):
     missing = sorted(set(required) - set(seen))
     if missing:
-        raise core.Machinery("vacuity: %s never exercised: %s" % (what, missing))
+        core.vacuity("%s never exercised: %s" % (what, missing))
 
 
 def replay_one(ctx, path):
